@@ -7,7 +7,7 @@ CHECKS = {
  "C10": dict(cat="exploration", sec="4 C10",
    technique="exhaustive input enumeration: all byte strings <= 5/6 over a 26-byte alphabet + all lexeme-fragment sequences x separators, span-consistency oracle + independent tokenizer",
    text="Every byte string up to the bound over one byte per lexer branch is tokenised by the real lexer and checked by a span oracle (tiling, positions, literals, keyword classes, maximal munch, after-newline, stable end of input); well-formed fragment sequences are compared token by token with an independent tokenizer. Complete within the bound: cursor off-by-ones need specific short byte sequences, all of which are enumerated.",
-   note="trusted: R-span and R-tok (xmc/ref/rtok.go, props/c10.go); LF line model, byte columns; NUL-as-EOF recorded as known finding"),
+   note="trusted: R-span and R-tok (xmc/ref/rtok.go, props/c10.go); LF line model, byte columns; NUL-as-EOF was a finding and is fixed (known_findings.json)"),
  "C11": dict(cat="exploration", sec="4 C11",
    technique="exhaustive input enumeration: all token sequences <= 4/5 over a 45-lexeme alphabet (valid or not) and all byte strings <= 4, x 4 parser modes, error-contract oracle + reflective tree walk + all compiler configurations",
    text="Every token sequence up to the bound (malformed ones included) and every short byte string is parsed by the real parser in all four mode combinations; the error contract (no panic, err iff errors, no nil entries in statement lists, error ranges are token ranges, error-free trees complete and compilable in every configuration) is checked on each. Complete within the bound, so every early-return path of every sub-parser reachable with <= n tokens is driven.",
@@ -84,7 +84,7 @@ def main():
             "engine": "xmc",
             "level_claimed": {"category": c["cat"], "text": c["text"], "design_ref": "DESIGN.md §" + c["sec"]},
             "level_note": c["note"],
-            "technique": c["technique"] + ("" if pid in ("C09","C14","C04") else "; plus the value-class and size (scale) families listed in the evidence rule"),
+            "technique": c["technique"] + ("" if pid in ("C09","C14","C04") else "; plus the value-class, size (scale), identifier-spelling, object-lifecycle and builder-extension families listed in the evidence rule"),
         })
     na = [{"property_id": p, "reason": NA_REASON.get(p, "check not built yet (work in progress; see DESIGN.md §4 for the planned bounded exhaustive exploration)")} for p in ALL if p not in CHECKS]
     m = {
